@@ -20,8 +20,10 @@ ASSUMPTIONS = ["well-formed regime (hv/wf.py); iteration reference hv/ref/load.p
                "iterations / ranks passed are valid for the traces (the API raises ValueError otherwise)"]
 PLAN = {"quick": {"shards": 16, "cases": 480, "timeout": 900}, "thorough": {"shards": 16, "cases": 5000, "timeout": 3400}}
 FLOORS = {"quick": {"distinct_nontrivial": 60, "names_judged": 3000, "proper_rank_subsets": 25, "self_comparisons": 25, "short_name_calls": 60, "identical_labels": 60, "ops_diff_called_first": 80, "fractional_duration_rows": 100,
+                    "cases_with_a_name_under_two_categories": 60, "tables_after_a_table_in_the_other_naming_mode": 100,
                     "class_added": 200, "class_deleted": 200, "class_increased": 100, "class_decreased": 100, "class_unchanged": 500},
           "thorough": {"distinct_nontrivial": 1200, "names_judged": 100000, "proper_rank_subsets": 500, "self_comparisons": 800, "short_name_calls": 1200, "identical_labels": 1000, "ops_diff_called_first": 1400, "fractional_duration_rows": 2000,
+                       "cases_with_a_name_under_two_categories": 1000, "tables_after_a_table_in_the_other_naming_mode": 2000,
                        "class_added": 4000, "class_deleted": 4000, "class_increased": 2000, "class_decreased": 2000, "class_unchanged": 10000}}
 
 
@@ -67,6 +69,14 @@ def gen_case(rnd, tier: str, i: Any) -> Dict[str, Any]:
                 for e in tr["traceEvents"]:
                     if e.get("ph") == "X" and e.get("cat") in ("kernel", "gpu_memcpy", "gpu_memset") and rnd.random() < 0.6:
                         e["dur"] = e["dur"] + rnd.choice([0.125, 0.25, 0.5, 0.75])
+    dual_cat = rnd.random() < 0.3
+    if dual_cat:
+        # one name recorded under two categories (a record_function / user annotation named like an operator)
+        for side in ((control,) if test is control else (control, test)):
+            for tr in side.values():
+                for k, e in enumerate(tr["traceEvents"]):
+                    if k > 0 and e.get("ph") == "X" and e.get("cat") == "cpu_op" and rnd.random() < 0.3:
+                        e["cat"] = "user_annotation"
     steps = list(range(first_step, first_step + n_steps))
 
     def sel_ranks():
@@ -90,7 +100,7 @@ def gen_case(rnd, tier: str, i: Any) -> Dict[str, Any]:
     self_cmp = rnd.random() < 0.2
     labels = rnd.choice([["Control", "Test"], ["Control", "Test"], ["baseline", "candidate"], ["run", "run"], [None, None]])
     return {"control": control, "test": control if self_cmp else test, "self": self_cmp, "mode": mode, "labels": labels,
-            "classes_first": rnd.random() < 0.5,
+            "classes_first": rnd.random() < 0.5, "dual_cat": dual_cat, "second_table": rnd.random() < 0.4,
             "sel": {"control_rank": sel_ranks(), "test_rank": sel_ranks(), "control_iteration": sel_iter(), "test_iteration": sel_iter(),
                     "device": rnd.choice(["ALL", "CPU", "GPU"]), "short": rnd.random() < 0.3}}
 
@@ -115,6 +125,34 @@ def _summary(models, ranks, iterations, device, short):  # noqa: ANN001
             cnt[nm] += 1
             dur[nm] += e.dur
     return cnt, dur
+
+
+def _judge_table(comp, mods, sel, short, lc, lt, res, what):  # noqa: ANN001
+    cc, cd = _summary(mods["control"], sel["control_rank"], sel["control_iteration"], sel["device"], short)
+    tc, td = _summary(mods["test"], sel["test_rank"], sel["test_iteration"], sel["device"], short)
+    names = set(cc) | set(tc)
+    got_names = set(comp.index.tolist())
+    if got_names != names:
+        res.bad("one-row-per-name", f"{what}: names only in table {sorted(got_names - names)[:4]}; names missing from table {sorted(names - got_names)[:4]} (selection {sel})")
+    if len(comp.index) != len(got_names):
+        dup = [n for n, c in collections.Counter(comp.index.tolist()).items() if c > 1]
+        res.bad("one-row-per-name", f"{what}: several rows for the names {dup[:4]}")
+        return cc, cd, tc, td, names
+    nb = 0
+    for nm in names & got_names:
+        res.counters["names_judged"] += 1
+        row = comp.loc[nm]
+        got = (row[f"{lc.label}_counts"], row[f"{lt.label}_counts"], row[f"{lc.label}_total_duration"], row[f"{lt.label}_total_duration"],
+               row["diff_counts"], row["diff_duration"])
+        exp = (cc[nm], tc[nm], cd[nm], td[nm], tc[nm] - cc[nm], td[nm] - cd[nm])
+        if any(isinstance(x, float) and x != int(x) for x in exp):
+            res.counters["fractional_duration_rows"] += 1
+        if tuple(float(x) for x in got) != tuple(float(x) for x in exp):
+            nb += 1
+            if nb <= 3:
+                res.bad("counts-durations", f"{what}: {nm!r}: (control_counts, test_counts, control_dur, test_dur, diff_counts, diff_dur)={tuple(float(x) for x in got)} "
+                        f"expected {exp} (selection {sel})")
+    return cc, cd, tc, td, names
 
 
 def run_case(case: Dict[str, Any], ctx: Any) -> core.CaseResult:
@@ -163,28 +201,16 @@ def run_case(case: Dict[str, Any], ctx: Any) -> core.CaseResult:
                 res.counters["proper_rank_subsets"] += 1
         if sel["short"]:
             res.counters["short_name_calls"] += 1
-        cc, cd = _summary(mods["control"], sel["control_rank"], sel["control_iteration"], sel["device"], sel["short"])
-        tc, td = _summary(mods["test"], sel["test_rank"], sel["test_iteration"], sel["device"], sel["short"])
-        names = set(cc) | set(tc)
-        got_names = set(comp.index.tolist())
-        if got_names != names:
-            res.bad("one-row-per-name", f"names only in table {sorted(got_names - names)[:4]}; names missing from table {sorted(names - got_names)[:4]} (selection {sel})")
-        if len(comp.index) != len(got_names):
-            res.bad("one-row-per-name", "duplicate rows for a name")
-        nb = 0
-        for nm in names & got_names:
-            res.counters["names_judged"] += 1
-            row = comp.loc[nm]
-            got = (row[f"{lc.label}_counts"], row[f"{lt.label}_counts"], row[f"{lc.label}_total_duration"], row[f"{lt.label}_total_duration"],
-                   row["diff_counts"], row["diff_duration"])
-            exp = (cc[nm], tc[nm], cd[nm], td[nm], tc[nm] - cc[nm], td[nm] - cd[nm])
-            if any(isinstance(x, float) and x != int(x) for x in exp):
-                res.counters["fractional_duration_rows"] += 1
-            if tuple(float(x) for x in got) != tuple(float(x) for x in exp):
-                nb += 1
-                if nb <= 3:
-                    res.bad("counts-durations", f"{nm!r}: (control_counts, test_counts, control_dur, test_dur, diff_counts, diff_dur)={tuple(float(x) for x in got)} "
-                            f"expected {exp} (selection {sel})")
+        if case.get("dual_cat"):
+            res.counters["cases_with_a_name_under_two_categories"] += 1
+        cc, cd, tc, td, names = _judge_table(comp, mods, sel, sel["short"], lc, lt, res, "compare_traces")
+        if case.get("second_table"):
+            # the same pair of objects asked again with the other naming mode (and once more with the first one)
+            for short2 in (not sel["short"], sel["short"]):
+                ok, comp2 = drv.guard(res, "compare_traces (again)", TraceDiff.compare_traces, lc, lt, use_short_name=short2, **kw)
+                if ok:
+                    _judge_table(comp2, mods, sel, short2, lc, lt, res, f"compare_traces again (use_short_name={short2})")
+                    res.counters["tables_after_a_table_in_the_other_naming_mode"] += 1
         # ---- classes
         ok, od = drv.guard(res, "ops_diff", TraceDiff.ops_diff, lc, lt, **kw)
         if ok and od_first is not None and {k: sorted(v) for k, v in od_first.items()} != {k: sorted(v) for k, v in od.items()}:
